@@ -1067,3 +1067,108 @@ def receive_maximum_resume_family(report, prop="C09", label="receive-maximum-res
     report.obligation("corr:" + label, "correspondence", ok, f"{len(scripts)} scripted resumed sessions, every response compared")
     report.obligation("mon:" + label, "monitor", mon, "unacknowledged QoS>0 publishes on the resumed connection never exceed the Receive Maximum of its CONNACK")
     return ok and mon
+
+
+def slow_start_family(report, prop="C09", label="one-at-a-time-drain"):
+    """one-at-a-time drain after a reconnect, for every number of earlier interruptions and every retry limit: on the resumed
+    connection at most one operation that requires an acknowledgement is outstanding until every operation the disconnection
+    interrupted is resolved - also for operations that sit exactly at their interrupted-retry limit, and with a subscribe among
+    them; acknowledgements arrive one by one."""
+    from gv import harness_batch, resp_fields, unhex
+    from walk import split_packets
+    scripts = []
+    for retries in (None, 1, 2, 3):
+        for rounds in (1, 2, 3):
+            if retries is not None and rounds > retries:
+                continue      # (above the limit the operations are failed at the close; the C18 families cover that)
+            for K, q, with_sub in ((2, 1, False), (3, 1, False), (3, 1, True), (2, 2, False), (4, 1, True)):
+                rt = "" if retries is None else f" retries={retries}"
+                sc = [f"eng.new v=5 policy=all drain=one pingto=0 resolver=none rmax=2{rt} | ka=0 cid=x63 rejoin=always", "eng.open t=0 deadline=30000",
+                      "eng.svc t=0 cap=4096 prefill=0", "eng.wc t=0", "eng.data t=0 b=x2003000000"]
+                sc += [f"eng.pub t=1 | publish pid=0 topic=x742f3{n} qos={q} retain=0 payload=x0{n}" for n in range(K)]
+                if with_sub:
+                    sc.append("eng.sub t=1 | subscribe pid=0 sub=x662f30:1:0:0:0")
+                sc += ["eng.svc t=1 cap=4096 prefill=0", "eng.wc t=1"]
+                t = 2
+                for r in range(rounds):
+                    sc += [f"eng.close t={t}", f"eng.open t={t} deadline=90000", f"eng.svc t={t} cap=4096 prefill=0", f"eng.wc t={t}", f"eng.data t={t} b=x2003010000"]
+                    if r + 1 < rounds:
+                        # the whole backlog goes out again one by one?  no: nothing is acknowledged, so only the first does
+                        sc += [f"eng.svc t={t} cap=4096 prefill=0", f"eng.wc t={t}", f"eng.svc t={t} cap=4096 prefill=0", f"eng.wc t={t}"]
+                    t += 1
+                n_ops = K + (1 if with_sub else 0)
+                for k in range(n_ops):
+                    sc += [f"eng.svc t={t} cap=4096 prefill=0", f"eng.wc t={t}", f"eng.svc t={t} cap=4096 prefill=0", f"eng.wc t={t}", "ack-next"]
+                sc += [f"eng.svc t={t} cap=4096 prefill=0", f"eng.wc t={t}"]
+                scripts.append((sc, retries, rounds, K, q, with_sub))
+    ok, mon, bad, mbad = True, True, 0, 0
+    import gv
+    for sc, retries, rounds, K, q, with_sub in scripts:
+        # driven: the acknowledgement sent is that of the operation the client has outstanding
+        hp, mp = gv.Proc([gv.HARNESS_BIN], "harness"), gv.Proc([gv.DRIVER_BIN], "driver")
+        try:
+            done, conn, stream, seen, outstanding = [], 0, b"", 0, []
+            hist = []
+
+            def both(line):
+                nonlocal ok, bad
+                a, b = hp.ask(line), mp.ask(line)
+                hist.append(line)
+                if canon(a) != canon(b):
+                    ok = False
+                    if bad < 4:
+                        report.add_finding(Finding(prop, "corr:" + label, {"clause": "model-vs-impl", "verb": line.split(" ")[0]},
+                                                   "one-at-a-time drain scenario: implementation and model disagree", hist[1:] + ["# impl:  " + a[:300], "# model: " + b[:300]], has_input=False))
+                    bad += 1
+                return a
+            both("session.reset")
+            last_conn_at = max(i for i, x in enumerate(sc) if x.startswith("eng.open"))
+            for i, line in enumerate(sc):
+                if line == "ack-next":
+                    if not outstanding:
+                        continue
+                    kind, pid = outstanding.pop(0)
+                    tt = hist[-1].split(" t=")[1].split(" ")[0]
+                    if kind == 3:
+                        if q == 1:
+                            both(f"eng.data t={tt} b=x4002{pid:04x}")
+                        else:
+                            both(f"eng.data t={tt} b=x5002{pid:04x}")
+                            both(f"eng.svc t={tt} cap=4096 prefill=0")
+                            both(f"eng.wc t={tt}")
+                            both(f"eng.data t={tt} b=x7002{pid:04x}")
+                    else:
+                        both(f"eng.data t={tt} b=x9003{pid:04x}01")
+                    continue
+                a = both(line)
+                if line.startswith("eng.open"):
+                    stream, seen, outstanding = b"", 0, []
+                f, _ = resp_fields(a)
+                if f.get("bytes", "x") != "x":
+                    stream += unhex(f["bytes"])
+                    pkts, _, _ = split_packets(stream)
+                    for first, body in pkts[seen:]:
+                        if first >> 4 == 3 and (first >> 1) & 3 > 0:
+                            tl = (body[0] << 8) | body[1]
+                            outstanding.append((3, (body[2 + tl] << 8) | body[3 + tl]))
+                        elif first >> 4 == 8:
+                            outstanding.append((8, (body[0] << 8) | body[1]))
+                    seen = len(pkts)
+                    if i > last_conn_at and len(outstanding) > 1:
+                        mon = False
+                        if mbad < 6:
+                            report.add_finding(Finding(prop, "mon:" + label, {"clause": "slow-start-exceeded", "retries": retries, "rounds": rounds},
+                                                       f"{len(outstanding)} operations that require an acknowledgement are outstanding (packet ids {[p for _, p in outstanding]}) on a resumed connection "
+                                                       f"while operations interrupted by the disconnection are unresolved (one-at-a-time drain configured, interrupted-retry limit {retries}, interruption {rounds})",
+                                                       hist[1:] + ["# impl: " + a[:200]]))
+                        mbad += 1
+                        break
+            report.case("|".join(hist[1:]))
+            report.traces_validated += 1
+            report.count(label + f".retries={retries}.round={rounds}")
+        finally:
+            hp.close(); mp.close()
+    report.count(label + ".scenarios", len(scripts))
+    report.obligation("corr:" + label, "correspondence", ok, f"{len(scripts)} driven resumed sessions, every response compared")
+    report.obligation("mon:" + label, "monitor", mon, "at most one acknowledgement-requiring operation outstanding on the resumed connection until the interrupted ones are resolved")
+    return ok and mon
